@@ -66,8 +66,13 @@ func (s *httpProxy) Handle(ctx context.Context, conn net.Conn) error {
 
 	defer conn2.Close()
 
+	// one reader per connection, not per message: a reader created anew for every
+	// request (reply) would take what it had read ahead - the next pipelined request -
+	// with it
+	reader := bufio.NewReader(conn)
+	reader2 := bufio.NewReader(conn2)
+
 	for {
-		reader := bufio.NewReader(conn)
 		req, err := http.ReadRequest(reader)
 		if err == io.EOF {
 			return nil
@@ -101,7 +106,6 @@ func (s *httpProxy) Handle(ctx context.Context, conn net.Conn) error {
 
 		var resp *http.Response
 
-		reader2 := bufio.NewReader(conn2)
 		resp, err = http.ReadResponse(reader2, req)
 		if err == io.EOF {
 			return nil
